@@ -88,6 +88,23 @@ def run_pipe_conformance(chk, quick):
                           "real pipe with %d slots: event %d %s is not allowed by PipeContract" % (1 << log2, rj["line"], json.dumps(e)),
                           {"kind": "pipe", "slotslog2": log2, "readers": readers, "events": ev, "rejected_at": rj["line"]})
     chk.cov["pipe_events_validated"] = total
+    # coverage beyond the listed properties: the real LocklessMultiWriteIntrusiveList against the same exactly-once
+    # contract (3 writers, 1 reader, 2 CPUs).  It is not reachable through rkcommon's public API, so a rejection is
+    # reported as a note that binds the IntrusiveList.tla counter-example to the code - never as a VIOLATION of C01.
+    d = os.path.join(WORK, "run", "c01-ilist")
+    os.makedirs(d, exist_ok=True)
+    outp = os.path.join(d, "ilist-%d.ndjson" % os.getpid())
+    p = subprocess.run([exe, "--out", outp, "--seed", str(chk.seed), "--execs", "60" if quick else "400", "--ops", "40", "--list", "3", "--cpus", "2"],
+                       stdout=subprocess.PIPE, stderr=subprocess.STDOUT, timeout=600)
+    if p.returncode == 0 and os.path.exists(outp):
+        execs = [json.loads(l)["events"] for l in open(outp) if l.strip()]
+        os.remove(outp)
+        acc, rej, st = trace.validate(os.path.join(SPEC, "PipeContract.tla"), os.path.join(SPEC, "PipeContract.cfg"), execs,
+                                      "c01-ilist", reset_key="ev", max_rejections=1000)
+        chk.cov["intrusive_list_extra"] = {"executions": len(execs), "accepted": acc, "rejected": len(rej)}
+        chk.note("coverage beyond the listed properties: enkiTS LocklessMultiWriteIntrusiveList (pinned-task list, not reachable through "
+                 "rkcommon's API): %d of %d real executions lose nodes (rejected by PipeContract at End), as TLC's counter-example to NoLoss on "
+                 "IntrusiveList.tla predicts" % (len(rej), len(execs)))
 
 
 def replay_pipe(chk, rep):
